@@ -198,6 +198,7 @@ QueryGen == [kind |-> "query", phase |-> "run", done |-> FALSE, exc |-> "", page
 MkGen(x) ==
   CASE x.kind = "crawl" -> NewCrawl(x.data)
     [] x.kind = "rule"  -> NewRule(x.anchor, x.rule)
+    [] x.kind = "qpages" -> NewPagesQuery(x.ps, x.oc)
     [] OTHER -> QueryGen
 
 CoopRam(rm, gs, S) ==
@@ -236,6 +237,7 @@ CoopClauses(st, rm, d, gs, S, post, o0, o1) ==
       <<"bind.exc",    r.g.exc = S.exc>>,
       <<"bind.done",   isq \/ r.g.done = S.a.done>>,
       <<"bind.report", isq \/ ~S.a.done \/ (r.g.pages = S.pages /\ r.g.created = S.created)>>,
+      <<"bind.qresult", (gs[S.a.g].kind = "qpages" /\ S.a.done /\ S.exc = "") => r.g.acc = S.a.result>>,
       <<"bind.trie",   r.st.trie = post.trie>>,
       <<"bind.links",  r.st.ls = post.ls>>,
       <<"bind.hdr",    r.st.lastId = post.lastId>>,
